@@ -28,7 +28,7 @@ class Ob:
 
     def __init__(self, name, fn, covers=(), required=True, hash_mode="concretise", qtimeout_ms=None,
                  split=None, step_budget=200000, path_wall_s=60.0, div_mode="assume", note="",
-                 max_paths=None, min_asserting=1):
+                 max_paths=None, min_asserting=1, budget_is_violation=False):
         self.name = name
         self.fn = fn
         self.covers = list(covers)
@@ -42,6 +42,7 @@ class Ob:
         self.note = note
         self.max_paths = max_paths
         self.min_asserting = min_asserting
+        self.budget_is_violation = budget_is_violation
 
 
 def setup_paths():
@@ -76,6 +77,8 @@ def run_task(args):
         ob = _obs(pid, tier)[obname]
         ex = symx.Explorer(qtimeout_ms=ob.qtimeout_ms or qtimeout_ms, hash_mode=ob.hash_mode,
                            step_budget=ob.step_budget, path_wall_s=ob.path_wall_s, div_mode=ob.div_mode)
+        ex.budget_is_violation = ob.budget_is_violation
+        ex.ob_required = ob.required
         done = ex.explore(ob.fn, prefix=prefix, frontier_depth=frontier_depth, deadline=deadline,
                           max_paths=ob.max_paths)
         out.update(stats=ex.stats.as_dict(), violations=[v.as_dict() for v in ex.violations],
